@@ -6,6 +6,7 @@ import (
 
 func init() {
 	vRegister("H10_syn", H10_syn)
+	vRegister("H10_after", H10_after)
 }
 
 // H10_syn: two synonym batches built one after the other on the pooled builder (the pool model hands the
@@ -26,4 +27,54 @@ func H10_syn() {
 		vAssert(err == nil, "open")
 	}
 	sCheckThesauri(seg, bsp, nil, nil, "b-")
+	if vParam("plainAfter", 1) == 1 && vBool("plainAfter") {
+		// ... and a plain batch after the synonym batches: its fields take over the ids the thesauri had
+		docs, sp := vGenBatchFixed(gCfg{prefix: "c", idBase: "c", nDocs: 1, wide: -1,
+			fields: []gField{
+				{name: "f", terms: []string{"a"}, dv: true, store: true, fixFreq: true},
+				{name: "g", terms: []string{"c"}, dv: true, fixFreq: true},
+				{name: "h", terms: []string{"e"}, fixFreq: true},
+			}})
+		pseg, _, err := z.newWithChunkMode(docs, DefaultChunkMode)
+		vAssert(err == nil, "c-build")
+		sCheckStored(pseg, sp, "c-")
+		sCheckPostings(pseg, sp, "c-")
+		sCheckDocValues(pseg, sp, []int{0}, "c-")
+		for _, th := range []string{"t1", "t2", "f", "g", "h"} {
+			thes, err := pseg.(segment.ThesaurusSegment).Thesaurus(th)
+			vAssert(err == nil && thes != nil, "c-thes")
+			e, err := thes.AutomatonIterator(nil, nil, nil).Next()
+			vAssert(err == nil && e == nil, "c-thes-empty")
+		}
+	}
+}
+
+// H10_after: a segment stays what it was when later batches are built in the same process: four batches of
+// similar size are built one after the other, each segment is checked right after its build and all of
+// them again at the end (in memory: nothing of a returned segment may alias reusable builder memory).
+func H10_after() {
+	var z ZapPlugin
+	n := 3 + vChoice("nBuilds", 2)
+	var segs []segment.Segment
+	var specs []*sSpec
+	for i := 0; i < n; i++ {
+		pre := []string{"p", "q", "r", "s"}[i]
+		docs, sp := vGenBatchFixed(gCfg{prefix: pre, idBase: pre, nDocs: 2, wide: -1, noFx: true,
+			fields: []gField{
+				{name: "f", terms: []string{"a", pre}, tv: true, maxLocs: 1, fixLocs: true, dv: true, store: true},
+				{name: "g", terms: []string{"c"}, dv: true, fixFreq: true},
+			}})
+		seg, _, err := z.newWithChunkMode(docs, DefaultChunkMode)
+		vAssert(err == nil, "build")
+		sCheckStored(seg, sp, "now-")
+		sCheckPostings(seg, sp, "now-")
+		segs = append(segs, seg)
+		specs = append(specs, sp)
+	}
+	for i := range segs {
+		sCheckStored(segs[i], specs[i], "later-")
+		sCheckDocNumbers(segs[i], specs[i], "later-")
+		sCheckPostings(segs[i], specs[i], "later-")
+		sCheckDocValues(segs[i], specs[i], []int{1, 0}, "later-")
+	}
 }
